@@ -119,6 +119,14 @@ def w_partial(ctx, rng, idx, param):
         call('TT.ortho_right', lambda: t.ortho_right(start_index=s, end_index=e), prop=P)
 
 
+def finish(ctx):
+    # the failpoint workload must really have driven the fallback branch: a run in which the injected failure never fired
+    # has not observed that branch (this happened silently after the repository stopped passing overwrite_a=True)
+    if ctx.workload_counts.get('failpoint', 0) > 0:
+        ctx.checks['C03|failpoint:default_svd_driver_failure_injected'] += probe.S.failpoint_hits
+    ctx.events['failpoint_hits_total'] += probe.S.failpoint_hits
+
+
 def w_failpoint(ctx, rng, idx):
     t, kind = make(rng, dmax=4)
     ctx.describe({'op': 'ortho with failing default SVD driver', 'row': t.row_dims, 'col': t.col_dims, 'ranks': t.ranks, 'kind': kind})
@@ -138,12 +146,9 @@ WORKLOADS = [
     Workload('failpoint', w_failpoint, 60, 2000),
     ambient.WORKLOAD,
 ]
-REQUIRED = ['C03|TT.ortho_left:value_preserved', 'C03|TT.ortho_right:value_preserved', 'C03|TT.ortho:value_preserved',
+REQUIRED = ['C03|failpoint:default_svd_driver_failure_injected', 'C03|TT.ortho_left:value_preserved', 'C03|TT.ortho_right:value_preserved', 'C03|TT.ortho:value_preserved',
             'C03|TT.ortho_left:isometry', 'C03|TT.ortho_right:isometry', 'C03|TT.ortho:isometry',
             'C03|TT.ortho_left:ranks_not_increased', 'C03|TT.ortho_right:ranks_not_increased',
             'C03|TT.ortho_left:untouched_cores_unchanged', 'C03|TT.ortho_right:untouched_cores_unchanged',
             'C03|TT.ortho_left:consistent_after', 'C03|TT.ortho_right:consistent_after']
 
-
-def finish(ctx):
-    ctx.events['failpoint_hits_total'] += probe.S.failpoint_hits
